@@ -10,6 +10,7 @@ import PlatypusModel.Model.Crowding
 import PlatypusModel.Model.Grid
 import PlatypusModel.Model.Run
 import PlatypusModel.Model.GenStep
+import PlatypusModel.Model.Restart
 import PlatypusModel.Model.HVFit
 import PlatypusModel.Model.Survival
 import PlatypusModel.Model.SPEA2
@@ -265,6 +266,17 @@ def opsRun (op : String) : Option (P String) :=
         | 0, _, acc => acc.reverse
         | k + 1, s, acc => let s' := genStep c sizes s; go k s' (s!"{s'.nfe}:{s'.pos}:{s'.pop}" :: acc)
       pure (" ".intercalate (go steps { nfe := 0, pos := 0, pop := 0 } []))
+  | "erun" => some do   -- NSGA-II / eps-NSGA-II with adaptive time continuation (Model/Restart.lean): state after every run-loop iteration
+      let popSize ← nat; let ratio ← nat; let minP ← nat; let maxP ← nat; let counts ← list nat; let mcounts ← list nat; let archs ← list nat
+      let c : RCfg := { ratio := ratio, minPop := minP, maxPop := maxP }
+      let sizes : Nat → Nat := fun i => counts.getD i 1
+      let msizes : Nat → Nat := fun i => mcounts.getD i 1
+      let rec goR : List Nat → RState → List String → List String
+        | [], _, acc => acc.reverse
+        | a :: rest, s, acc =>
+          let s' := rStep c sizes msizes (if a = 0 then none else some (a - 1)) s
+          goR rest s' (s!"{s'.nfe}:{s'.pos}:{s'.mpos}:{s'.pop}:{s'.popSize}" :: acc)
+      pure (" ".intercalate (goR archs { nfe := 0, pos := 0, mpos := 0, pop := 0, popSize := popSize } []))
   | "evalall" => some do
       let flags ← list bool
       let (calls, inc) := evalAll flags
